@@ -12,7 +12,7 @@ pub struct C04;
 const STEXT: [char; 8] = [' ', 'a', 'é', 'я', '一', '°', '-', '|'];
 
 fn is_label(c: char) -> bool {
-    matches!(c, 'a' | 'b' | 'é' | 'я' | '一' | '二' | 'z' | '1' | '°' | '&')
+    matches!(c, 'a' | 'b' | 'é' | 'я' | '一' | '二' | 'z' | '1' | '°' | '&' | '\u{301}' | '\u{200d}')
 }
 
 /// compare the text elements of `d` with the label characters of `input`
@@ -113,6 +113,26 @@ impl Prop for C04 {
                 for b in &rows {
                     let w = enumr::display_cols(a).max(enumr::display_cols(b)).max(1);
                     f(Case::s(format!("{}\n{}\n{}", a, "-".repeat(w), b)));
+                }
+            }
+        }));
+        v.push(Scope::new("zero-width", "all rows over {a, combining acute U+0301, zero-width joiner U+200D, space} up to length 5, alone and on a row of dashes: a zero-width character occupies its own cell and must be shown", |f| {
+            enumr::strings_upto(&['a', '\u{301}', '\u{200d}', ' '], 5, &mut |s| {
+                let row: String = s.iter().collect();
+                if row.contains('\u{301}') || row.contains('\u{200d}') {
+                    f(Case::s(row.clone()));
+                    f(Case::s(format!("{}\n{}", row, "-".repeat(s.len().max(1)))));
+                }
+            })
+        }));
+        v.push(Scope::new("two-text-rows", "all pairs of rows over {a,b,space} up to length 4, directly above each other (labels of adjacent rows must not be joined)", |f| {
+            let mut rows: Vec<String> = vec![];
+            enumr::strings_upto(&['a', 'b', ' '], 4, &mut |s| rows.push(s.iter().collect()));
+            for a in &rows {
+                for b in &rows {
+                    if !a.trim().is_empty() && !b.trim().is_empty() {
+                        f(Case::s(format!("{}\n{}", a, b)));
+                    }
                 }
             }
         }));
